@@ -37,7 +37,7 @@ pub static PROP: Prop = Prop {
         "private steering routines and the in_startup flag are reached through the guarded hook kalman_a1.rs (read/call only)",
     ],
     profiles: Profiles::Both,
-    cases: |t| t.pick(1_000, 12_000),
+    cases: |t| t.pick(500, 6_000),
     budget_s: |t| t.pick(40, 400),
     run,
     min_nontrivial: 100,
@@ -196,7 +196,8 @@ fn gen_correction(rng: &mut Rng, thr: Thr, acc_left: Option<i128>, step_thr: f64
         (10, _) => rng.log_uniform(1e-9, 1e-2),
         _ => rng.log_uniform(1e-4, if outside { 1e7 } else { 10.0 }),
     };
-    sign * mag.abs()
+    // a correction of exactly zero is never produced by the update code (it requires |offset| > threshold)
+    sign * mag.abs().max(1.0 / UNIT)
 }
 
 fn gen_direct(rng: &mut Rng) -> DirectCase {
@@ -289,8 +290,10 @@ fn judge_direct(c: &mut Case, d: &DirectCase, ended: JobEnd) {
             c.harness_error("direct drive: the benign first update did not leave startup");
             return;
         }
-        if !raw.get("panic").map(|p| p.is_null()).unwrap_or(true) {
+        if let Some(p) = raw.get("panic").and_then(|p| p.as_str()) {
+            // not judged here (C06 judges panics); kept visible in the evidence
             c.inc("cut_short_by_panic");
+            c.inc(&format!("panic_not_judged:direct:{}", p.chars().filter(|ch| !ch.is_ascii_digit()).take(90).collect::<String>()));
         }
     }
     c.inc("direct_cases");
@@ -479,8 +482,9 @@ fn judge_closed(c: &mut Case, spec: &Spec, ended: JobEnd) {
     if let Some(n) = raw.get("n_meas").and_then(|x| x.as_u64()) {
         c.count("closed_measurements", n);
     }
-    if raw.get("panic").is_some_and(|p| !p.is_null()) {
+    if let Some(p) = raw.get("panic").and_then(|p| p.as_str()) {
         c.inc("cut_short_by_panic");
+        c.inc(&format!("panic_not_judged:closed:{}", p.chars().filter(|ch| !ch.is_ascii_digit()).take(90).collect::<String>()));
     }
     if let Some(n) = raw.get("hook_mismatch").and_then(|x| x.as_u64()) {
         c.count("phase_hook_mismatch", n);
